@@ -104,7 +104,7 @@ fn plan(prop: &str, tier: Tier) -> Option<Plan> {
         },
         "C08" => Plan {
             level: "exploration",
-            batches: vec![b("W3", "ops", 20000, 400000)],
+            batches: vec![b("W3", "ops", 20000, 150000)],
             assumptions: vec![
                 "reference = list of (pattern, id, value) scanned with the regex crate on ^p$ (case-insensitive when the tree is)",
                 "patterns have the shape produced from rules: escaped literal text interleaved with (?:...) marker groups, built by the library's own MarkerString::new",
@@ -136,7 +136,7 @@ fn plan(prop: &str, tier: Tier) -> Option<Plan> {
         },
         "C12" => Plan {
             level: "exploration",
-            batches: vec![b("W1", "cache", 2500, 50000), b("W3", "cache", 8000, 240000), b("W6", "shared-routes", 4000, 200000)],
+            batches: vec![b("W1", "cache", 2000, 30000), b("W3", "cache", 8000, 80000), b("W6", "shared-routes", 4000, 200000)],
             assumptions: vec![
                 "router level: every observation (match ids, Route::capture maps, canonicalised trace) is compared with a twin router that went through the same history from rule values, never cached and sharing no route with the cached one",
                 "tree level: find() compared with an uncached twin tree after every operation; (limit, level) pairs in histories are sampled from {0,1,2,3,5,1000} x {None,0,1,2,3,7}; for one run in twelve (quick) / three (thorough) whose final tree has at most 8 entries the whole grid limit 0..=6 x level {None,0..=4} is applied to clones",
@@ -186,7 +186,7 @@ fn plan(prop: &str, tier: Tier) -> Option<Plan> {
         "C07" => Plan {
             level: "exploration",
             batches: vec![
-                b("W7", "hostile", 60000, 1000000),
+                b("W7", "hostile", 50000, 600000),
                 b("W4", "hostile", 2000, 50000),
                 b("W2", "faults", 3000, 60000),
                 b("W2", "plain", 500, 10000),
@@ -195,7 +195,7 @@ fn plan(prop: &str, tier: Tier) -> Option<Plan> {
                 b("W2T", "bytes", 8000, 200000),
                 b("W2T", "big", 8, 48),
                 b("W2D", "dom", 1500, 30000),
-                b("W3", "ops", 3000, 60000),
+                b("W3", "ops", 3000, 30000),
                 b("W1", "hist", 1000, 20000),
                 b("W1A", "analyses", 1000, 20000),
                 b("W5", "handoff", 5000, 100000),
